@@ -35,6 +35,15 @@ func intrinsicWrites(key string, ws *writeSet) {
 	if strings.HasPrefix(key, "big.") {
 		ws.keys["BigVal"] = true
 	}
+	if key == "sync.(*Map).Store" || key == "sync.(*Map).Delete" {
+		domS, valS := smSorts()
+		for k, srt := range map[string]string{"SM:dom": domS, "SM:tag": valS, "SM:val": valS} {
+			if _, ok := heapSorts[k]; !ok {
+				heapSorts[k] = srt
+			}
+			ws.keys[k] = true
+		}
+	}
 }
 
 var errorTypeID int64
@@ -58,6 +67,9 @@ func (e *Engine) intrinsic(fr *Frame, st *State, ins ssa.Instruction, key string
 	unit := Val{Fs: []Val{}}
 	if isCallbackIteration(key) && len(args) >= 2 && args[len(args)-1].Clo != nil {
 		return e.callbackIteration(fr, st, ins, key, args), true
+	}
+	if v, ok := e.syncMapOp(fr, st, ins, key, args, resType); ok {
+		return v, true
 	}
 	if key == "sync.(*Map).Range" && len(args) == 2 && args[1].Clo != nil {
 		// the callback runs an unknown number of times: forget everything it may write
@@ -316,4 +328,73 @@ func (e *Engine) callbackIteration(fr *Frame, st *State, ins ssa.Instruction, ke
 		e.note("callback of " + key + " in " + fnKey + " has no iteration invariant: everything it may write is forgotten")
 	}
 	return Val{Fs: []Val{}}
+}
+
+// ---------------------------------------------------------------------
+// sync.Map as a finite map (Load / Store / Delete). A sync.Map is identified by the object that embeds it
+// and the field path (maps held in local variables are not modelled). Keys are compared by their interface
+// payload (one key type per map is assumed, which holds for every sync.Map in /repo); Range stays an
+// unknown number of callback runs and a struct assignment `m = sync.Map{}` is NOT seen by the model.
+
+func smSorts() (string, string) { return arrSort(SInt, arrSort(SInt, SBool)), arrSort(SInt, arrSort(SInt, SInt)) }
+
+var smFieldIDs = map[string]int64{}
+
+// smFieldID numbers (struct type, field path) pairs.
+func smFieldID(name string) *Term {
+	id, ok := smFieldIDs[name]
+	if !ok {
+		id = int64(len(smFieldIDs) + 1)
+		smFieldIDs[name] = id
+	}
+	return IntLit(id)
+}
+
+// smid(object, field number) is injective (axioms in builtinAxioms): different objects or fields are different maps.
+func smID(ref *Term, field string) *Term { return App("smid", SInt, ref, smFieldID(field)) }
+
+func syncMapID(v Val) (*Term, bool) {
+	if v.P != nil && v.P.Kind == PField && v.P.Ref != nil {
+		return smID(v.P.Ref, typeKey(v.P.Typ)+pathString(v.P.Typ, v.P.Path)), true
+	}
+	if v.P == nil && v.T != nil {
+		return smID(v.T, "*"), true
+	}
+	return nil, false
+}
+
+func (e *Engine) syncMapOp(fr *Frame, st *State, ins ssa.Instruction, key string, args []Val, resType types.Type) (Val, bool) {
+	switch key {
+	case "sync.(*Map).Load", "sync.(*Map).Store", "sync.(*Map).Delete":
+	default:
+		return Val{}, false
+	}
+	id, ok := syncMapID(args[0])
+	if !ok || len(args) < 2 || len(args[1].Fs) != 2 {
+		return Val{}, false
+	}
+	domS, valS := smSorts()
+	k := args[1].Fs[1].T
+	dom := st.heapGet("SM:dom", domS)
+	tags := st.heapGet("SM:tag", valS)
+	vals := st.heapGet("SM:val", valS)
+	switch key {
+	case "sync.(*Map).Load":
+		has := Select(Select(dom, id), k)
+		t := Ite(has, Select(Select(tags, id), k), IntLit(0))
+		v := Ite(has, Select(Select(vals, id), k), IntLit(0))
+		return Val{Fs: []Val{{Fs: []Val{{T: t}, {T: v}}}, {T: has}}}, true
+	case "sync.(*Map).Store":
+		if len(args) < 3 || len(args[2].Fs) != 2 {
+			return Val{}, false
+		}
+		st.heapSet("SM:dom", Store(dom, id, Store(Select(dom, id), k, True())))
+		st.heapSet("SM:tag", Store(tags, id, Store(Select(tags, id), k, args[2].Fs[0].T)))
+		st.heapSet("SM:val", Store(vals, id, Store(Select(vals, id), k, args[2].Fs[1].T)))
+		return Val{Fs: []Val{}}, true
+	case "sync.(*Map).Delete":
+		st.heapSet("SM:dom", Store(dom, id, Store(Select(dom, id), k, False())))
+		return Val{Fs: []Val{}}, true
+	}
+	return Val{}, false
 }
